@@ -338,8 +338,11 @@ class Schema:
                     path_i_str = tuple(str(i) for i in path_i)
                     if path_i_str not in items:
                         items[path_i_str] = {"path": path_simple_i}
+                    # (a key named by both `allowed_keys` and `required_keys` is required,
+                    # whatever the order of the two conditions)
                     items[path_i_str]["required"] = (
-                        key_cnd.callable.name == "required_keys"
+                        items[path_i_str].get("required", False)
+                        or key_cnd.callable.name == "required_keys"
                     )
 
             type_cnds = rule.condition.get_always_applicable_type_like_conditions()
